@@ -73,6 +73,7 @@ type Exec struct {
 	// POPL 2011): every departure from the deterministic default order costs 1, also at blocking points.
 	DelayBounded bool
 	idleTicks    int
+	Leaked       []string // set by Teardown: hook points of goroutines that would have blocked for ever
 }
 
 // NewExec installs a fresh execution state. Call inside the bubble, before Enable.
@@ -99,8 +100,28 @@ func (e *Exec) disable() {
 }
 
 // Teardown disables the scheduler and lets every goroutine run freely; call before the bubble ends.
-func (e *Exec) Teardown() {
-	e.disable()
+//
+// A goroutine parked on a condition that is false now would, once the hooks are off, block natively for
+// ever and the bubble could never end (synctest panics: "blocked goroutines remain"). Such goroutines are
+// ended here with runtime.Goexit (their deferred calls run) and their hook points are returned: a
+// harness whose oracle promises "nothing is left behind" must treat a non-empty result as a leak.
+func (e *Exec) Teardown() (leaked []string) {
+	synctest.Wait()
+	on.Store(false)
+	mu.Lock()
+	ws := e.parked
+	e.parked = nil
+	mu.Unlock()
+	for _, w := range ws {
+		if w.cond != nil && !w.cond() {
+			leaked = append(leaked, w.name+"/"+w.label)
+			w.ch <- -1
+		} else {
+			w.ch <- 0
+		}
+	}
+	sort.Strings(leaked)
+	e.Leaked = leaked
 	// goroutines released above may park again only if hooks were still on; they are off now.
 	synctest.Wait()
 	mu.Lock()
@@ -108,6 +129,7 @@ func (e *Exec) Teardown() {
 		cur = nil
 	}
 	mu.Unlock()
+	return leaked
 }
 
 func goid() uint64 {
@@ -167,7 +189,11 @@ func park(label string, cond func() bool, alts int, costly bool) int {
 	w.order = e.order
 	e.parked = append(e.parked, w)
 	mu.Unlock()
-	return <-w.ch
+	v := <-w.ch
+	if v < 0 {
+		runtime.Goexit() // Teardown: this goroutine would block for ever (see there)
+	}
+	return v
 }
 
 // Go starts a named harness thread. It parks at its start before running fn.
